@@ -3,7 +3,7 @@
 pid=$1; patch=$2; runs=${3:-}
 name=$(basename "$patch" .diff | cut -c1-24)
 [ "$name" = patch ] && name=$(basename "$(dirname "$patch")")
-args="--no-evidence --max-classes 2 --stop-early"
+args="--no-evidence --max-classes 2 --stop-early --deadline 3000"
 [ -n "$runs" ] && args="$args --runs $runs"
 out=$(tools/mutant.sh "sens-$pid-$name" "$patch" timeout 1500 ./check $pid $args 2>&1)
 if echo "$out" | grep -q "^VIOLATION property=$pid"; then
